@@ -206,7 +206,7 @@ fn check_cells(env: &Env, cells: &[Cell], out: &mut Outcome, sub: &str) {
 fn layer1(env: &Env, tier: &str, seed: u64, out: &mut Outcome) {
     let thorough = tier == "thorough";
     let rounds = if thorough { 6 } else { 1 };
-    let per_rule = if thorough { 16 } else { 8 };
+    let per_rule = if thorough { 16 } else { 12 };
     let mut nontrivial: BTreeSet<u64> = BTreeSet::new();
     for round in 0..rounds {
         let mut rg = Rg::from_seed(vmodel::derive_seed(seed, "c20-layer1", round, 0));
